@@ -83,6 +83,13 @@ var boolOpts = []boolOpt{
 	{"AllowInvalidUTF8", jsontext.AllowInvalidUTF8},
 }
 
+// wsOpts are never passed by the generated callers: inside a call they must read false.
+var wsOpts = []boolOpt{
+	{"Multiline", jsontext.Multiline},
+	{"SpaceAfterColon", jsontext.SpaceAfterColon},
+	{"SpaceAfterComma", jsontext.SpaceAfterComma},
+}
+
 func buildOpts(names []string) []json.Options {
 	var out []json.Options
 	for _, n := range names {
@@ -108,6 +115,17 @@ func (s *state) checkOpts(inside json.Options) {
 		}
 	}
 	if s.c.Dir == "m" {
+		for _, bo := range wsOpts {
+			want, _ := json.GetOption(s.callerOpts, bo.ctor)
+			if got, _ := json.GetOption(inside, bo.ctor); got != want {
+				s.flag(fmt.Sprintf("option %s inside the call = %v, caller's = %v", bo.name, got, want))
+				ok = false
+			}
+		}
+		if got, _ := json.GetOption(inside, jsontext.WithIndent); got != "" {
+			s.flag(fmt.Sprintf("indent %q visible inside a call whose caller asked for none", got))
+			ok = false
+		}
 		if m, _ := json.GetOption(inside, json.WithMarshalers); m != s.marshalers {
 			s.flag("WithMarshalers visible inside differs from the caller's")
 			ok = false
@@ -207,6 +225,27 @@ func encHook(id, beh string, enc *jsontext.Encoder, label string, idx int) error
 	case "options":
 		s.checkOpts(enc.Options())
 		return one()
+	case "nested-ok", "nested-ws":
+		// A nested MarshalEncode call with options of its own: they "only
+		// apply for the duration of the marshal call", whether it succeeds
+		// (nested-ok) or is turned down because it asks for another
+		// whitespace style (nested-ws); afterwards the caller's are visible
+		// again. Either way exactly the one value `name` gets written.
+		det, _ := json.GetOption(s.callerOpts, json.Deterministic)
+		nsn, _ := json.GetOption(s.callerOpts, json.FormatNilSliceAsNull)
+		nopts := []json.Options{json.Deterministic(!det), json.FormatNilSliceAsNull(!nsn), json.WithMarshalers(nil)}
+		if beh == "nested-ws" {
+			nopts = append(nopts, jsontext.WithIndent("  "))
+		}
+		err := json.MarshalEncode(enc, keyT(name), nopts...)
+		s.checkOpts(enc.Options())
+		if err != nil {
+			if beh == "nested-ok" {
+				return err
+			}
+			return one()
+		}
+		return nil
 	case "pop-repush", "pop-unsup":
 		extra := int64(1)
 		if beh == "pop-unsup" {
@@ -426,6 +465,20 @@ func decHook(id, beh string, dec *jsontext.Decoder, set func(string)) error {
 	case "options":
 		s.checkOpts(dec.Options())
 		return one()
+	case "nested":
+		// A nested UnmarshalDecode call with options of its own (turned down
+		// at an object name, where the duplicate-name setting may not
+		// change): afterwards the caller's options are visible again.
+		dup, _ := json.GetOption(s.callerOpts, jsontext.AllowDuplicateNames)
+		rej, _ := json.GetOption(s.callerOpts, json.RejectUnknownMembers)
+		var raw jsontext.Value
+		err := json.UnmarshalDecode(dec, &raw, jsontext.AllowDuplicateNames(!dup), json.RejectUnknownMembers(!rej), json.WithUnmarshalers(nil))
+		s.checkOpts(dec.Options())
+		if err != nil {
+			return one()
+		}
+		set(id + ":" + string(raw))
+		return nil
 	case "pop-repush", "pop-unsup":
 		extra := int64(1)
 		if beh == "pop-unsup" {
